@@ -139,6 +139,7 @@ def run(tier, seed):
   def gen_program(r):
     prog = []
     nxt = 1
+    made = [0]
     for _ in range(r.randrange(4, 14)):
       u = r.random()
       tid = r.randrange(1, nxt + 1) if r.random() < 0.85 else nxt + 3
@@ -150,6 +151,12 @@ def run(tier, seed):
           oracle = ('deliver', [r.randrange(100) for _ in range(max(0, count + r.choice([0, 0, 1, -1])))], [], [])
         prog.append(('suggest', r.choice([1, 2]), count, oracle))
         nxt += 2
+        if oracle[0] == 'deliver':
+          made[0] += min(count, len(oracle[1]))
+          if made[0] and r.random() < 0.3:
+            # a call the service rejects with an error that is not one of its own classes: completing a feasible trial
+            # that has neither a final nor an intermediate measurement
+            prog.append(('complete', made[0], None, False))
       elif u < 0.36:
         prog.append(('complete', tid, [(1, r.randrange(4)), (2, r.randrange(4))] if r.random() < 0.8 else None, r.random() < 0.15))
       elif u < 0.42:
@@ -163,9 +170,11 @@ def run(tier, seed):
       elif u < 0.62:
         prog.append(('add_trial', float(r.choice([5, 50, 500, -3])), r.random() < 0.5))
         nxt += 1
+        made[0] += 1 if prog[-1][1] in (5.0, 50.0) else 0
       elif u < 0.66:
         prog.append(('request', float(r.randrange(100))))
         nxt += 1
+        made[0] += 1
       elif u < 0.72:
         prog.append(('list_trials',))
       elif u < 0.78:
